@@ -210,3 +210,13 @@ func (p *Prog) InstrPos(in ssa.Instruction) string {
 	}
 	return "-"
 }
+
+// Sizes returns the sizing function of the analysed target (word size follows GOARCH of the load).
+func (p *Prog) Sizes() types.Sizes {
+	for _, pk := range p.Pkgs {
+		if pk.TypesSizes != nil {
+			return pk.TypesSizes
+		}
+	}
+	return types.SizesFor("gc", "amd64")
+}
